@@ -7,6 +7,10 @@ from sim import driver, pipeline
 from sim.core import Sim, SimAbort, SimBudget, h64
 from sim.runner import in_child
 
+# import the driver before any simulated run: its import draws from src.utils.random, which
+# would otherwise happen inside (and be charged to) the first session of each worker
+driver.hmod()
+
 LANGS = ('java', 'kotlin', 'groovy', 'scala')
 FILES = {'java': ('Main.java', 'Incorrect.java'), 'kotlin': ('program.kt', 'incorrect.kt'),
          'groovy': ('Main.groovy', 'incorrect.groovy'), 'scala': ('program.scala', 'incorrect.scala')}
